@@ -588,6 +588,21 @@ fn fn_json<'tcx>(tcx: TyCtxt<'tcx>, id: LocalDefId) -> Option<J> {
                 v.push(("trait", J::s(path_of(tcx, tr.def_id))));
                 v.push(("trait_full", J::s(with_no_trimmed_paths!(format!("{}", tr)))));
                 v.push(("trait_local", J::Bool(tr.def_id.is_local())));
+                // associated types of this impl (so that `<Self as Trait>::Item` in the signature can be resolved)
+                let mut ats = Vec::new();
+                for item in tcx.associated_items(imp).in_definition_order() {
+                    if item.is_type() {
+                        if let Some(tid) = item.trait_item_def_id() {
+                            let t = tcx.type_of(item.def_id).instantiate_identity().skip_norm_wip();
+                            ats.push(J::Obj(vec![
+                                ("trait_item", J::s(path_of(tcx, tid))),
+                                ("tree", ty_tree(tcx, t, 0)),
+                                ("s", J::s(tys(t))),
+                            ]));
+                        }
+                    }
+                }
+                v.push(("assoc_types", J::Arr(ats)));
             }
         } else if let Some(tr) = tcx.trait_of_assoc(def_id) {
             v.push(("trait_decl", J::s(path_of(tcx, tr))));
